@@ -54,13 +54,46 @@ def dump_option_sites(repo: Repo):
                 m = cls.methods.get(fn)
                 if m is None:
                     continue
-                for n in ast.walk(m.node):
-                    if isinstance(n, ast.Call):
+                # the function and every same-class method / same-module function it (transitively) calls, so that an
+                # extracted helper is still the carrier's outbound path
+                todo, seen = [m.node], set()
+                while todo:
+                    node = todo.pop()
+                    if id(node) in seen:
+                        continue
+                    seen.add(id(node))
+                    # locals bound to a dump method: x = getattr(m, "model_dump_json", None) / x = m.model_dump (also
+                    # inside a conditional expression)
+                    aliases = set()
+                    for n in ast.walk(node):
+                        if isinstance(n, (ast.Assign, ast.AnnAssign)) and n.value is not None:
+                            hit = False
+                            for v in ast.walk(n.value):
+                                if isinstance(v, ast.Call) and isinstance(v.func, ast.Name) and v.func.id == "getattr" \
+                                        and len(v.args) >= 2 and isinstance(v.args[1], ast.Constant) \
+                                        and v.args[1].value in ("model_dump", "model_dump_json"):
+                                    hit = True
+                                if isinstance(v, ast.Attribute) and v.attr in ("model_dump", "model_dump_json") \
+                                        and not isinstance(getattr(v, "ctx", None), ast.Store):
+                                    hit = hit or not any(isinstance(c, ast.Call) and c.func is v for c in ast.walk(n.value))
+                            if hit:
+                                tg = n.targets if isinstance(n, ast.Assign) else [n.target]
+                                aliases |= {t.id for t in tg if isinstance(t, ast.Name)}
+                    for n in ast.walk(node):
+                        if not isinstance(n, ast.Call):
+                            continue
                         f = n.func
                         name = f.attr if isinstance(f, ast.Attribute) else (f.id if isinstance(f, ast.Name) else "")
-                        if name in ("model_dump", "model_dump_json", "model_dump_method", "model_dump_json_method"):
+                        if name in ("model_dump", "model_dump_json") or (isinstance(f, ast.Name) and name in aliases):
                             kws = {k.arg: (k.value.value if isinstance(k.value, ast.Constant) else "?") for k in n.keywords}
                             out.append((rel, fn, ast.unparse(n), kws))
+                        callee = None
+                        if isinstance(f, ast.Attribute) and isinstance(f.value, ast.Name) and f.value.id in ("self", "cls", cls.name):
+                            callee = cls.methods.get(f.attr)
+                        elif isinstance(f, ast.Name):
+                            callee = mi.functions.get(f.id)
+                        if callee is not None:
+                            todo.append(callee.node)
     return out
 
 
@@ -134,5 +167,9 @@ class C15(Check):
     def replay(self, name, model, rec):
         return None
 
+
+    def bounded_stand_in(self, tier, undecided):
+        from checks import native
+        return native.stand_in(['C05.'], tier, undecided)
 
 CHECK = C15()
